@@ -657,6 +657,9 @@ func (s *Source) signalDelivery() {
 // guarantee no leak.
 func (s *Source) deliverDeferredAcks() {
 	defer close(s.deliveryDone)
+	// gap is set once an ack could not be delivered (see deliverOneAck), from
+	// then on no later ack is sent to the plugin.
+	gap := false
 	for {
 		s.ackMu.Lock()
 		queue := s.deferredAckQueue
@@ -665,7 +668,15 @@ func (s *Source) deliverDeferredAcks() {
 		s.ackMu.Unlock()
 
 		for _, positions := range queue {
-			s.deliverOneAck(positions)
+			if gap {
+				// An earlier ack was given up on. Delivering a later one would
+				// tell the plugin that a position is processed while skipping
+				// the one before it (invariant 4: acks reach the plugin in Ack
+				// order, without gaps). The positions are durable, dropping
+				// them is the same benign outcome as dropping the first one.
+				continue
+			}
+			gap = !s.deliverOneAck(positions)
 		}
 
 		if len(queue) > 0 {
@@ -708,30 +719,30 @@ func (s *Source) deliverDeferredAcks() {
 // unbuffered errs channel that nothing is reading, a self-inflicted deadlock.
 // The stream must stay open during Teardown's bounded drain (Teardown cancels
 // streamCtx only after that drain) precisely so these final sends can succeed.
-func (s *Source) deliverOneAck(positions []opencdc.Position) {
+func (s *Source) deliverOneAck(positions []opencdc.Position) (delivered bool) {
 	attempt := 0
 	for {
 		cleanup, err := s.preparePluginCall()
 		if err != nil {
 			// Plugin already torn down; benign (position durable).
 			cleanup()
-			return
+			return false
 		}
 		if s.stream == nil {
 			cleanup()
-			return
+			return false
 		}
 		sendErr := s.stream.Send(pconnector.SourceRunRequest{AckPositions: positions})
 		cleanup()
 		if sendErr == nil {
-			return // delivered
+			return true // delivered
 		}
 
 		// If the stream is already being torn down, every further send will
 		// resolve to ctx.Canceled the same way; stop retrying and drop
 		// (benign — the position is durable, restart re-delivers).
 		if s.streamTornDown() {
-			return
+			return false
 		}
 
 		attempt++
@@ -744,7 +755,7 @@ func (s *Source) deliverOneAck(positions []opencdc.Position) {
 					Msg("exhausted retries delivering deferred ack to a running source connector plugin; escalating (stream appears broken)")
 				s.escalateDeferredAckFailure(sendErr)
 			}
-			return
+			return false
 		}
 
 		s.Instance.logger.Debug(context.Background()).Err(sendErr).
@@ -752,7 +763,7 @@ func (s *Source) deliverOneAck(positions []opencdc.Position) {
 			Msg("transient failure delivering deferred ack to running source connector plugin; retrying")
 		if !s.backoffDeferredAck(attempt) {
 			// Backoff aborted because the stream was torn down; drop (benign).
-			return
+			return false
 		}
 	}
 }
